@@ -658,6 +658,34 @@ pub fn run(opts: &Opts) -> Report {
             if let Err(m) = r { rep.fail("panic", &format!("C19/{}/with_file-on-a-dataset-that-holds-something-panics", what), vec![format!("AnnotationDataSet (one key) .with_file(<a valid {} dataset>)", what)], "Ok or Err", &m); }
         }
     }
+    // more items of a kind than its handles can number (keys and datasets: 16 bits): refused, or kept apart
+    {
+        let n = 65537usize;
+        let keys_doc = format!("{{\"@type\": \"AnnotationStore\", \"resources\": [], \"annotationsets\": [{{\"@type\": \"AnnotationDataSet\", \"@id\": \"s\", \"keys\": [{}], \"data\": []}}], \"annotations\": []}}", (0..n).map(|i| format!("{{\"@type\": \"DataKey\", \"@id\": \"k{}\"}}", i)).collect::<Vec<_>>().join(","));
+        let sets_doc = format!("{{\"@type\": \"AnnotationStore\", \"resources\": [], \"annotationsets\": [{}], \"annotations\": []}}", (0..n).map(|i| format!("{{\"@type\": \"AnnotationDataSet\", \"@id\": \"s{}\", \"keys\": [{{\"@type\": \"DataKey\", \"@id\": \"k\"}}], \"data\": []}}", i)).collect::<Vec<_>>().join(","));
+        for (what, doc) in [("keys", keys_doc), ("datasets", sets_doc)] {
+            rep.count(&format!("json:more-{}-than-handles", what));
+            rep.case(Some(&format!("more-{}-than-handles", what)));
+            let ctx = vec![format!("a store document with {} {} (handles of that kind are 16 bits wide)", n, what)];
+            let r = guarded(std::panic::AssertUnwindSafe(|| -> Result<Option<String>, StamError> {
+                let st = AnnotationStore::from_str(&doc, Config::default())?;
+                // the first and the last item are two items, each found under its own identifier
+                if what == "keys" {
+                    let ds = st.dataset("s").expect("dataset");
+                    let (a, b) = (ds.key("k0"), ds.key("k65536"));
+                    Ok(match (a, b) { (Some(a), Some(b)) if a.handle() != b.handle() && a.id() == Some("k0") && b.id() == Some("k65536") => None, (a, b) => Some(format!("k0 -> {:?}, k65536 -> {:?}; {} keys", a.map(|k| (k.handle().as_usize(), k.id().map(|x| x.to_string()))), b.map(|k| (k.handle().as_usize(), k.id().map(|x| x.to_string()))), ds.keys().count())) })
+                } else {
+                    let (a, b) = (st.dataset("s0"), st.dataset("s65536"));
+                    Ok(match (a, b) { (Some(a), Some(b)) if a.handle() != b.handle() && a.id() == Some("s0") && b.id() == Some("s65536") => None, (a, b) => Some(format!("s0 -> {:?}, s65536 -> {:?}; {} datasets", a.map(|k| (k.handle().as_usize(), k.id().map(|x| x.to_string()))), b.map(|k| (k.handle().as_usize(), k.id().map(|x| x.to_string()))), st.datasets().count())) })
+                }
+            }));
+            match r {
+                Ok(Ok(None)) | Ok(Err(_)) => {}
+                Ok(Ok(Some(m))) => rep.fail("oracle", &format!("C19/json/more-{}-than-handles/identifiers-collide", what), ctx, "an error, or every item found under its own identifier", &m),
+                Err(m) => rep.fail("panic", &format!("C19/json/more-{}-than-handles/panic", what), ctx, "Ok or Err", &m),
+            }
+        }
+    }
     std::fs::remove_dir_all(&dir).ok();
     parsers_stream(&mut rep, &mut rng, if opts.thorough() { 3000 } else { 400 });
     tempid_stream(&mut rep, &mut rng, if opts.thorough() { 3000 } else { 400 });
